@@ -5,6 +5,7 @@ from harness.gen.histories import VERSIONS
 
 ID = "C10"
 PROP_FILE = "C10.v"
+SOFT_PINS = "core"
 TRANSLATORS = ["unicode_tables", "tables"]
 RULE = ("70% directed OTA scenarios (harness/gen/scenarios.ota_history: 1-3 nodes, some id-assigned, some sleeping; update calls "
         "with single ids, lists, unknown ids, no / empty firmware, type or version 70000 / -1 / 'x' / '7'; images of 1-257 bytes "
